@@ -11,6 +11,7 @@
 import Garnish.Driver.Proto
 import Garnish.Driver.ValIO
 import Garnish.Model.Build
+import Garnish.Spec.WFProg
 namespace Garnish.Driver
 open Garnish Garnish.Gen Garnish.Model.Parser Garnish.Model.Literals Garnish.Model.Build
 
@@ -207,6 +208,86 @@ def buildCase (f : List String) : String :=
         | .fuelOut => "FUELOUT"
       | _ => "PRELUDE-FAILED"
     | _, _ => "BAD-CASE"
+  | _ => "BAD-CASE"
+
+
+/-! ### WFCHK: the verified well-formedness checker (Spec/WFProg.lean) on a dump of the implementation
+
+    WFCHK \t id \t <BUILD result line of the harness, verbatim> \t nNodes [\t i0 \t j0]
+      → `skip` (the dump is not an `ok ..` line) | `BAD-CASE` | `wf=true why=-` | `wf=false why=<first violated clause>`
+    clauses: operand | expression-constant | jump-entry | terminator | metadata-count | metadata-node | entry.
+    The state is rebuilt from the dump: one constant per `Put`/`Resolve` instruction (`(e N)` = expression N,
+    `(s N)` = symbol, a rendering starting with `<` = invalid address → operand out of range, anything else = a plain
+    value); `i0`/`j0` (default 0) = number of instructions / jump entries that were in the object before the build,
+    i.e. the start state `s0` of `wfProg`.  `entry` is checked only when `nNodes ≠ 0` (an empty node vector returns
+    entry 0 without creating a jump entry). -/
+
+def splitOnChar (c : Char) (s : String) : List String :=
+  if s.isEmpty then [] else s.splitOn (String.singleton c)
+
+/-- text between `open` and the next `close` after it -/
+def between (s opn cls : String) : Option String :=
+  match s.splitOn opn with
+  | _ :: rest :: _ => (rest.splitOn cls).head?
+  | _ => none
+
+structure DumpAcc where
+  instrs : Array Garnish.Model.Build.Instr := #[]
+  consts : Array (Val Float) := #[]
+  bad : Bool := false
+
+def dumpInstr (acc : DumpAcc) (field : String) : DumpAcc :=
+  let name := String.ofList (field.toList.takeWhile (· != ':'))
+  let operand := String.ofList ((field.toList.dropWhile (· != ':')).drop 1)
+  match Instruction.ofName? name with
+  | none => { acc with bad := true }
+  | some ins =>
+    if operand.isEmpty then { acc with instrs := acc.instrs.push (ins, none) }
+    else if ins == .put || ins == .resolve then
+      if operand.startsWith "<" then { acc with instrs := acc.instrs.push (ins, some 1000000000) }
+      else
+        let v : Val Float :=
+          if operand.startsWith "(e " then
+            match (String.ofList ((operand.toList.drop 3).takeWhile Char.isDigit)).toNat? with
+            | some n => .expr n
+            | none => .custom
+          else if operand.startsWith "(s " then .sym 0
+          else .unit
+        { acc with instrs := acc.instrs.push (ins, some acc.consts.size), consts := acc.consts.push v }
+    else
+      match operand.toNat? with
+      | some n => { acc with instrs := acc.instrs.push (ins, some n) }
+      | none => { acc with bad := true }
+
+def parseMetaField (f : String) : Option (Option Nat) :=
+  if f == "-" then some none else f.toNat?.map some
+
+def wfCase (f : List String) : String :=
+  match f with
+  | _ :: _ :: dump :: nNodes :: rest =>
+    if !dump.startsWith "ok entry=" then "skip"
+    else
+      let i0 := (rest.head?.bind String.toNat?).getD 0
+      let j0 := ((rest.drop 1).head?.bind String.toNat?).getD 0
+      match nNodes.toNat?, between dump "ok entry=" " ", between dump " I=[" "]", between dump " J=[" "]", between dump " M=[" "]" with
+      | some nNodes, some entryS, some iS, some jS, some mS =>
+        let acc := (splitOnChar ';' iS).foldl dumpInstr {}
+        let acc0 := ((splitOnChar ';' iS).take i0).foldl dumpInstr {}
+        let jumps := (splitOnChar ';' jS).map String.toNat?
+        let metas := (splitOnChar ';' mS).map parseMetaField
+        if acc.bad || jumps.any Option.isNone || metas.any Option.isNone || entryS.toNat?.isNone then "BAD-CASE"
+        else
+          let jumps : Array Nat := (jumps.filterMap id).toArray
+          let metas : Array (Option Nat) := (metas.filterMap id).toArray
+          let entry := entryS.toNat?.getD 0
+          let s : BState Float := ⟨acc.instrs, jumps, acc.consts, metas⟩
+          let s0 : BState Float := ⟨acc0.instrs, jumps.extract 0 j0, acc0.consts, metas.extract 0 i0⟩
+          match Garnish.Spec.wfWhy nNodes s0 s with
+          | some why => s!"wf=false why={why}"
+          | none =>
+            if nNodes != 0 && !(entry < jumps.size) then "wf=false why=entry"
+            else "wf=true why=-"
+      | _, _, _, _, _ => "BAD-CASE"
   | _ => "BAD-CASE"
 
 end Garnish.Driver
